@@ -83,6 +83,12 @@ def build(case):
     drv = P.framer("drv", dframes, order=case["writer"])
     m = P.framer("m", frames)
     framers = [drv, m]
+    if case.get("twin"):
+        # the observed framer is a moot framer; two scheduled framers each run their own clone of it, under the same
+        # clone tag: every clone keeps its own marks and must behave as the framer itself would
+        m["sched"] = "moot"
+        for h in ("hA", "hB"):
+            framers.append(P.framer(h, [P.frame("h0", [{"v": "aux", "aux": "m", "as": case["twin"]}])]))
     inits = [[".w", {"value": 0}]]
     if gates:
         gk = P.framer("gk", [P.frame("g0", [{"v": "inc", "dst": ".g", "data": {"value": 1}, "ctx": "recur"}])], order="front")
@@ -219,7 +225,16 @@ def check_case(ctx, case):
     if amb:
         ctx.hit("ambiguous_histories")
         return
-    obs = [t["framers"]["m"]["active"] for t in res.ticks[1:]]
+    if case.get("twin"):
+        ctx.hit("twin_clone_histories")
+        for h in ("hA", "hB"):
+            who = "%s_%s" % (h, "m1" if case["twin"] == "mine" else case["twin"])
+            _judge(ctx, case, text, [t["framers"][who]["active"] for t in res.ticks[1:]], exp, stats, who)
+        return
+    _judge(ctx, case, text, [t["framers"]["m"]["active"] for t in res.ticks[1:]], exp, stats, "m")
+
+
+def _judge(ctx, case, text, obs, exp, stats, who):
     ctx.event(len(obs))
     n = min(len(obs), len(exp), TICKS)
     for k, v in stats.items():
@@ -245,8 +260,9 @@ def check_case(ctx, case):
             took = obs[t] != (obs[t - 1] if t else None)
             ctx.fail("marker-condition/%s/%s" % (kind, "taken-but-rule-says-no" if (t and obs[t] != obs[t - 1] and exp[t] == exp[t - 1])
                                                   else "outcome-differs"),
-                     "tick %d: active frame %s, marker rules say %s" % (t, obs[t], exp[t]),
-                     {"program": text, "tick": t, "observed": obs[:n], "expected": exp[:n], "plan": case["plan"], "writer": case["writer"]})
+                     "tick %d: active frame of %s is %s, marker rules say %s" % (t, who, obs[t], exp[t]),
+                     {"program": text, "tick": t, "framer": who, "observed": obs[:n], "expected": exp[:n], "plan": case["plan"],
+                      "writer": case["writer"]})
             return
     ctx.check(True, "ok")
 
@@ -279,14 +295,17 @@ def run(ctx):
     rng = ctx.rng
     for i in range(ctx.pick(600, 60000)):
         cases.append(random_case(rng, opts))
+    for i in range(ctx.pick(200, 8000)):
+        cases.append(random_case(rng, opts, twin=True))
     n = 16
     ctx.shard([{"cases": cases[i::n]} for i in range(n)], timeout=ctx.pick(300, 1500))
+    ctx.floor("twin_clone_histories", 50)
     for k in ("taken", "refused", "same_tick_entry", "same_tick_transit", "before_first_mark", "need_updated", "need_changed",
               "with_in_frame", "with_by", "guard_refused_marker_transition", "same_frame_different_marks", "exit_writes", "taken_on_added_field_only"):
         ctx.floor(k, 20)
 
 
-def random_case(rng, opts, gated=None, exitwrites=None):
+def random_case(rng, opts, gated=None, exitwrites=None, twin=False):
     """one random history; gated=True forces entry guards on the later frames and marker needs on every frame"""
     nfr = rng.choice([2, 3])
     names = ["A", "B", "C"][:nfr]
@@ -325,4 +344,8 @@ def random_case(rng, opts, gated=None, exitwrites=None):
         for nm in names:
             if exitwrites or rng.random() < 0.5:
                 exitw[nm] = rng.choice([0, 1, 2, 3])
-    return {"frames": frames, "plan": plan, "writer": rng.choice(["front", "back"]), "gates": gates, "exitw": exitw}
+    case = {"frames": frames, "plan": plan, "writer": rng.choice(["front", "back"]), "gates": gates, "exitw": exitw}
+    if twin:
+        case["exitw"] = {}          # the clones' own writes would be updates for each other
+        case["twin"] = rng.choice(["mine", "w", "mine"])
+    return case
